@@ -38,6 +38,14 @@ CLAIMED = {
          "Generated bodies in every re-exported charset (valid, truncated, spliced, scrambled, random, lone surrogates, BOM-prefixed) x Content-Type forms over the harness's own WHATWG label table x default-charset settings x text / text_with / text_utf8 / text_reader drained with buffers from 1 byte to 100 000 bytes; the result must equal whole-body decoding with the model's charset, be identical for every segmentation, and never be an error.",
          "Whole-body decoding by encoding_rs is the reference the statement itself names; BOM-prefixed bodies are checked for segmentation independence only.",
          "DESIGN.md §4 C18"),
+ "C07": ("property-based testing (proptest): generated requests written through send(), parsed back by an independent strict HTTP/1.1 request parser and compared with a header/target/body model",
+         "Generated-input exploration over methods, Unicode URLs, param/params, header and auth operations and nine body kinds including generated programs of write/write_all/flush calls; the recorded connection bytes must parse as exactly one request and decode back to the generated method, path segments, query pairs, header multiset and body bytes, with consistent Content-Length or chunked framing and Connection: close.",
+         "Trusts the harness's strict parser and decoders; library-owned header names and header values with surrounding blanks are outside the domain.",
+         "DESIGN.md §4 C07"),
+ "C08": ("property-based testing (proptest) plus exhaustive component product (thorough) against a route model; CONNECT tunnels run real TLS to a sans-IO rustls peer on the injected transport",
+         "Generated and enumerated URL x proxy configurations over the four routes; the dial record (host, port, scheme), target form (origin vs absolute), absence of fragment and credentials, the single Host field, the CONNECT authority and the SNI are compared with the model.",
+         "For https connect URLs the injected transport is the decrypted channel (TLS to that peer skipped by the hook); https-through-proxy to an IPv6 literal is excluded (the client offers '[::1]' as SNI, refused by a conforming server).",
+         "DESIGN.md §4 C08"),
 }
 hooks_commits = subprocess.run(["git","-C","/repo","log","--format=%h %s"],capture_output=True,text=True).stdout.splitlines()
 hook_commits = [l.split()[0] for l in hooks_commits if l.split(' ',1)[1].startswith('verif-hooks')]
